@@ -51,8 +51,17 @@ func funcDecl(rel, name string) *ast.FuncDecl {
 	if f == nil {
 		return nil
 	}
+	recv := ""
+	if i := strings.Index(name, "."); i >= 0 {
+		recv, name = name[:i], name[i+1:]
+	}
 	for _, d := range f.Decls {
 		if fd, ok := d.(*ast.FuncDecl); ok && fd.Name.Name == name {
+			if recv != "" {
+				if fd.Recv == nil || len(fd.Recv.List) != 1 || recvTypeName(fd.Recv.List[0].Type) != recv {
+					continue
+				}
+			}
 			return fd
 		}
 	}
@@ -314,6 +323,7 @@ func main() {
 	genRoutes()
 	genSync()
 	genSites()
+	genGuards()
 	if len(failed) > 0 {
 		for _, f := range failed {
 			fmt.Fprintln(os.Stderr, "xlate: PATTERN-MISSING:", f)
